@@ -206,11 +206,11 @@ func (e *c15env) run(ch specxml.Chooser, kind string, mask settingsMask, replay 
 			hasGroup = true
 		}
 	}
-	for _, m := range members {
-		if m.Required && !present[m.Tag] {
-			c.Class("skipped:ambiguous-spec(required tag also inside a group)")
-			return
-		}
+	if missingRequired(items, members) {
+		// the specification itself is positionally ambiguous here (a required tag is also defined
+		// inside a group of the same level, so the generator left the scalar out): not a conforming message
+		c.Class("skipped:ambiguous-spec(required tag also inside a group)")
+		return
 	}
 	head := []fixwire.Field{fixwire.F(35, e.md.MsgType), fixwire.F(49, "SND"), fixwire.F(56, "TGT"), fixwire.F(34, strconv.Itoa(1+ch.Intn(5000))), fixwire.F(52, "20240102-03:04:05")}
 	if ch.Intn(3) == 0 {
@@ -481,7 +481,7 @@ func (e *c15env) run(ch specxml.Chooser, kind string, mask settingsMask, replay 
 			tags = append(tags, tg)
 		}
 		sort.Ints(tags)
-		exp = expectation{reasons: []int{15, 16, 1, 2, 14}, tags: tags}
+		exp = expectation{reasons: []int{15, 16, 1, 2, 13, 14}, tags: tags}
 	case "header-in-body":
 		if len(topScalars) == 0 {
 			c.Class("mutation-not-applicable:" + kind)
@@ -577,6 +577,28 @@ func (e *c15env) run(ch specxml.Chooser, kind string, mask settingsMask, replay 
 	if !okReason || !okTag {
 		fail(fmt.Sprintf("C15/wrong-identification/%s/got-reason%d", kind, rej.RejectReason()), "rejected with reason %d reftag %v (%v); %s", rej.RejectReason(), refTag(rej), rej, desc)
 	}
+}
+
+// missingRequired: does any level of the generated tree lack a required member?
+func missingRequired(items []*specxml.Item, members []*specxml.Member) bool {
+	present := map[int]*specxml.Item{}
+	for _, it := range items {
+		present[it.Tag] = it
+	}
+	for _, m := range members {
+		it, ok := present[m.Tag]
+		if m.Required && !ok {
+			return true
+		}
+		if ok && it.IsGroup {
+			for _, e := range it.Entries {
+				if missingRequired(e, m.Members) {
+					return true
+				}
+			}
+		}
+	}
+	return false
 }
 
 func (e *c15env) inHeaderTrailer(tag int) bool {
